@@ -226,7 +226,7 @@ def slice_probe(ctx):
 
 
 def slice_scope(ctx):
-    cases = (gens2.scope_cases(ctx['seed'], sz(ctx, 8000, 100000)) + gens2.closure_cases(ctx['seed'] + 7, sz(ctx, 3000, 40000))
+    cases = ([c[:2] for c in gens2.bare_scope_cases(ctx['seed'], 200)] + gens2.scope_cases(ctx['seed'], sz(ctx, 8000, 100000)) + gens2.closure_cases(ctx['seed'] + 7, sz(ctx, 3000, 40000))
              + gens2.reentry_cases(ctx['seed'] + 11, sz(ctx, 500, 6000)))
     return _eval_slice('scope', cases, 'one name bound at builtin / host / top-level / parameter level, lambda bodies that read, assign, '
                        'compound-assign or raise, called via apply / map / sorted / reduce / try_apply / recursion')
